@@ -13,7 +13,7 @@ REPO = os.environ.get("VERIF_REPO", "/repo")
 COQ = os.path.join(VERIF, "coq")
 BUILD = os.path.join(VERIF, ".build")
 HARNESS = os.path.join(VERIF, "harness")
-EVID = os.path.join(VERIF, "evidence")
+EVID = os.environ.get("VERIF_EVIDENCE_DIR") or os.path.join(VERIF, "evidence")   # seeded-change runs redirect it
 REPLAYS = os.path.join(VERIF, "replays")
 KNOWN = os.path.join(VERIF, "known_findings.txt")
 NCPU = min(16, os.cpu_count() or 4)
@@ -180,6 +180,23 @@ def audit_property(pid, allowed_axioms):
             discharged += 1
     ok = not details and discharged == len(theorems)
     return ok, len(theorems), discharged, details + [json.dumps(axioms_used)]
+
+
+def coqchk_property(pid, allowed_axioms, timeout=1500):
+    """thorough tier: re-check Properties/<pid>.vo and everything it depends on with the independent checker;
+    returns (ok, summary)"""
+    rc, out = run(["timeout", str(timeout), "coqchk", "-o", "-silent", "-Q", ".", "VF", "VF.Properties." + pid], cwd=COQ, timeout=timeout + 30)
+    if rc != 0:
+        return False, "coqchk failed: " + out[-400:]
+    m = re.search(r"\* Axioms:(.*?)\n\s*\n\* Constants/Inductives relying on type-in-type:(.*?)\n\s*\n\* Constants/Inductives relying on unsafe \(co\)fixpoints:(.*?)\n\s*\n\* Inductives whose positivity is assumed:(.*?)(\n\s*\n|$)", out, re.S)
+    if not m:
+        return False, "coqchk summary not understood: " + out[-300:]
+    axioms = [a.strip() for a in m.group(1).split("\n") if a.strip() and a.strip() != "<none>"]
+    others = [x.strip() for x in (m.group(2), m.group(3), m.group(4)) if x.strip() != "<none>"]
+    names = set(a.split(":")[0].strip().replace("Coq.Logic.", "").replace("Coq.Reals.", "") for a in axioms)
+    extra = [n for n in names if not any(n.endswith(al.split(".")[-1]) for al in allowed_axioms)]
+    ok = not extra and not others
+    return ok, "coqchk: axioms=%s%s" % (sorted(names) or "none", (" NOT ALLOWED: %s %s" % (extra, others)) if not ok else "")
 
 
 def check_pins(pid):
